@@ -750,11 +750,13 @@ def run_c08(rep, rng, tier):
                     {"name": "r0", "id": 0, "type": ("named", x["name"]), "params": []},
                     {"name": "r1", "id": 1, "type": ("opt", ("arr", ("named", x["name"]), 2)), "params": []}]})
             rootd = Desc()
+            # "dense": several declarations on one line of one file (nothing may identify a declaration by its line)
+            mstyle = rng.choice(["canon", "canon", "dense"])
             if rng.random() < 0.5:
                 rootd.decls = [{"k": "mod", "path": ["m0"]}, {"k": "mod", "path": ["sub", "m1"]}] + d.decls
-                job = {"files": {"main.fcp": render(rng, desc_toks(rng, rootd), "canon"),
-                                 "m0.fcp": render(rng, desc_toks(rng, e0), "canon"),
-                                 "sub/m1.fcp": render(rng, desc_toks(rng, e1), "canon")},
+                job = {"files": {"main.fcp": render(rng, desc_toks(rng, rootd), mstyle),
+                                 "m0.fcp": render(rng, desc_toks(rng, e0), mstyle),
+                                 "sub/m1.fcp": render(rng, desc_toks(rng, e1), mstyle)},
                        "root": "main.fcp", "from_string": False}
             else:
                 # namesake modules in different directories, the second reached through another module: a/types.fcp is
@@ -766,10 +768,10 @@ def run_c08(rep, rng, tier):
                     e1.decls.append({"k": "struct", "name": "IfaceUser" + str(rng.randint(0, 99)), "fields": [
                         {"name": f"n{j}", "id": j, "type": wrap(("named", x2["name"])), "params": []} for j, x2 in enumerate(t2)]})
                 rootd.decls = [{"k": "mod", "path": ["a", "types"]}, {"k": "mod", "path": ["b", "iface"]}] + d.decls
-                job = {"files": {"main.fcp": render(rng, desc_toks(rng, rootd), "canon"),
-                                 "a/types.fcp": render(rng, desc_toks(rng, e0), "canon"),
-                                 "b/iface.fcp": render(rng, desc_toks(rng, e1), "canon"),
-                                 "b/types.fcp": render(rng, desc_toks(rng, e2), "canon")},
+                job = {"files": {"main.fcp": render(rng, desc_toks(rng, rootd), mstyle),
+                                 "a/types.fcp": render(rng, desc_toks(rng, e0), mstyle),
+                                 "b/iface.fcp": render(rng, desc_toks(rng, e1), mstyle),
+                                 "b/types.fcp": render(rng, desc_toks(rng, e2), mstyle)},
                        "root": "main.fcp", "from_string": False}
             text = job["files"]["main.fcp"]
         if rng.random() < 0.4:
@@ -1064,7 +1066,9 @@ def mutate_tokens(rng, toks):
 def run_c11(rep, rng, tier):
     n = 500 if tier == "quick" else 15000
     inputs = [(t, "literal") for t in OUT_OF_DOMAIN]
-    alphabet = list(" \n\t{}[](),:;@|=.\"/*#$%&'!<>?\\^`~") + ["struct", "enum", "impl", "version", "u8", "x", "3", "-1", "1.5", "for", "mod"]
+    # ... and characters outside ASCII, named and nameless (C1 controls, private use, noncharacters, unassigned, tags)
+    odd = ["\u0085", "\u009f", "\ue000", "\uffff", "\u0378", "\U000e0001", "\U0010ffff", "\u00e9", "\u20ac", "\u00a0", "\u200b", "\ufeff"]
+    alphabet = list(" \n\t{}[](),:;@|=.\"/*#$%&'!<>?\\^`~") + ["struct", "enum", "impl", "version", "u8", "x", "3", "-1", "1.5", "for", "mod"] + odd
     for _ in range(n // 5):
         inputs.append(("".join(rng.choice(alphabet) + rng.choice(["", " "]) for _ in range(rng.randint(0, 40))), "random"))
     for _ in range(n // 10):
@@ -1078,7 +1082,11 @@ def run_c11(rep, rng, tier):
         toks = desc_toks(rng, d)
         for _ in range(rng.randint(1, 2)):
             toks = mutate_tokens(rng, toks)
-        inputs.append((render(rng, toks, "canon"), "mutation"))
+        text = render(rng, toks, "canon")
+        if rng.random() < 0.15:
+            k = rng.randrange(len(text) + 1)
+            text = text[:k] + rng.choice(odd) + text[k:]  # a stray character from outside ASCII anywhere in a schema
+        inputs.append((text, "mutation"))
     jobs = [{"files": {"main.fcp": t}, "root": "main.fcp", "from_string": i % 2 == 0} for i, (t, _) in enumerate(inputs)]
     # errors of every stage inside imported modules (one and two levels deep), far below the importer's last line
     bad_tails = ["struct Broken { z @ 1.5: u8, }\n", "enum Broken { }\n", "struct Broken { z @ 0: u8 | frobnicate(1), }\n",
